@@ -25,7 +25,7 @@ BOUNDARY = {
     'tuple': [['tuple', []], ['tuple', [['int', 1]]], ['tuple', [['int', 1], ['str', 'ab'], ['tuple', []]]]],
     'set': [['set', []], ['set', [['int', 1]]], ['set', [['int', 1], ['str', 'ab'], ['int', 300]]]],
     'frozenset': [['fset', []], ['fset', [['int', 1]]], ['fset', [['int', 1], ['str', 'ab'], ['int', 300]]]],
-    'dict': [['dict', []], ['dict', [[['int', 1], ['int', 2]]]],
+    'dict': [['dict', []], ['dict', [[['int', 1], ['int', 2]]]], ['dict', [[['str', 'b'], ['int', 1]], [['str', 'a'], ['int', 2]]]],
              ['dict', [[['str', 'a'], ['int', 1]], [['str', 'b'], ['list', [['int', 1]]]], [['int', 3], ['none']]]]],
     'str': [['str', ''], ['str', 'a'], ['str', 'abcdefghij klmnop'], ['str', "it's \"q\" \\ \n"], ['str', 'x' * 23],
             ['str', 'lorem ipsum dolor sit amet consectetur adipiscing']],
@@ -119,7 +119,7 @@ def enumerate_cases(tier):
                 maxw = min(L + 4, 90)
                 step = 1 if tier == 'thorough' or maxw <= 45 else 2
                 for w in range(1, maxw + 1, step):
-                    yield {'v': r, 'place': where, 'width': w, 'ribbon': w, 'indent': 4}
+                    yield {'v': r, 'place': where, 'width': w, 'ribbon': w, 'indent': 4, 'sort': base == 'dict' and w % 2 == 0}
 
 
 def fixed_cases():
@@ -137,7 +137,7 @@ def strategy(tier):
         'v': gens.sub_strategy(S), 'place': st.sampled_from(PLACES),
         'width': st.one_of(st.integers(1, 40), st.integers(1, 120)),
         'ribbon': st.one_of(st.just(None), st.integers(1, 120)),
-        'indent': st.sampled_from([1, 2, 4, 8]),
+        'indent': st.sampled_from([1, 2, 4, 8]), 'sort': st.booleans(),
     }).map(lambda c: dict(c, ribbon=c['ribbon'] or c['width']))
 
 
@@ -153,7 +153,8 @@ def oracle(case):
         except TypeError:
             where = 'val'
     obj = _place(x, where)
-    p = values.pp(obj, width=case['width'], ribbon_width=case['ribbon'], indent=case['indent'])
+    sort = bool(case.get('sort'))
+    p = values.pp(obj, width=case['width'], ribbon_width=case['ribbon'], indent=case['indent'], sort_dict_keys=sort)
     labels = [base, variant]
     if p.exc is not None:
         return core.viol('pformat-raised', repr(p.exc), labels)
@@ -169,7 +170,7 @@ def oracle(case):
     if type(got) is not cls:
         return core.viol('class-lost', 'expected %s, got %s\n%s' % (cls.__qualname__, type(got).__qualname__, text[:600]), labels)
     bx, bg = vtypes.base_value(x), vtypes.base_value(got)
-    if not eqv.same(bx, bg, 'keep'):
+    if not eqv.same(bx, bg, 'sort' if sort else 'keep'):
         return core.viol('base-value-differs', '%r vs %r\n%s' % (bx, bg, text[:600]), labels)
     try:
         tree = ast.parse('(' + text + '\n)', mode='eval')
@@ -194,7 +195,7 @@ def oracle(case):
             under = BASE_OF[base](arg)
         except Exception as e:
             return core.viol('argument-not-literal', '%r\n%s' % (e, text[:400]), labels)
-        if not eqv.same(under, bx, 'keep'):
+        if not eqv.same(under, bx, 'sort' if sort else 'keep'):
             return core.viol('argument-differs', '%r vs %r' % (under, bx), labels)
     multi = '\n' in text
     if multi:
